@@ -238,8 +238,7 @@ Section Frame.
       - destruct (pi_search (st_pindex s) ev); try apply R_refl. apply find_ids_idx_R.
       - apply find_ids_lin_R. }
     cbn [fst] in H.
-    destruct res as [l|e|w|]; try exact H.
-    destruct (check_rules l); exact H.
+    destruct res as [l|e|w|]; exact H.
   Qed.
 End Frame.
 
